@@ -39,6 +39,7 @@ Theorem conn_forwards shp (c : conn) (o : conn_op) :
   match o with
   | KDt _ v => conn_synapse (conn_apply shp c o) = s_apply (conn_synapse c) (SDt RN v)
   | KBatch _ v => conn_synapse (conn_apply shp c o) = s_apply (conn_synapse c) (SBatch RN v)
+  | KOnSyn _ o' => conn_synapse (conn_apply shp c o) = s_apply (conn_synapse c) o'     (* the direct route *)
   | KSyn _ ds dt dl b ip =>
       match s_ctor ds shp dt dl b ip with
       | Some s => conn_synapse (conn_apply shp c o) = s          (* the replacement is reported back *)
@@ -50,27 +51,40 @@ Theorem conn_forwards shp (c : conn) (o : conn_op) :
   conn_dt c' = s_dt RN (conn_synapse c') /\ conn_batch c' = s_batch RN (conn_synapse c') /\
   conn_delayedby c' = (if k_delayed RN c then Some (s_delay RN (conn_synapse c')) else None).
 Proof.
-  destruct o as [v|v|ds dt dl b ip]; cbn [Conn.conn_apply].
+  destruct o as [v|v|o'|ds dt dl b ip]; cbn [Conn.conn_apply].
+  - repeat split.
   - repeat split.
   - repeat split.
   - destruct (s_ctor ds shp dt dl b ip) as [s|]; repeat split.
 Qed.
 
-(* frame at the connection: assigning dt leaves batchsz and delayedby, assigning batchsz leaves dt and delayedby *)
+(* frame at the connection, for both routes: assigning dt leaves batchsz and delayedby, assigning batchsz leaves dt and
+   delayedby, assigning the synapse's delay leaves dt and batchsz, assigning inplace leaves all three *)
 Theorem conn_setter_frame shp (c : conn) (o : conn_op) :
   match o with
-  | KDt _ _ => conn_batch (conn_apply shp c o) = conn_batch c /\ conn_delayedby (conn_apply shp c o) = conn_delayedby c
-  | KBatch _ _ => conn_dt (conn_apply shp c o) = conn_dt c /\ conn_delayedby (conn_apply shp c o) = conn_delayedby c
+  | KDt _ _ | KOnSyn _ (SDt _ _) =>
+      conn_batch (conn_apply shp c o) = conn_batch c /\ conn_delayedby (conn_apply shp c o) = conn_delayedby c
+  | KBatch _ _ | KOnSyn _ (SBatch _ _) =>
+      conn_dt (conn_apply shp c o) = conn_dt c /\ conn_delayedby (conn_apply shp c o) = conn_delayedby c
+  | KOnSyn _ (SDelay _ _) => conn_dt (conn_apply shp c o) = conn_dt c /\ conn_batch (conn_apply shp c o) = conn_batch c
+  | KOnSyn _ (SInplace _ _) =>
+      conn_dt (conn_apply shp c o) = conn_dt c /\ conn_batch (conn_apply shp c o) = conn_batch c /\
+      conn_delayedby (conn_apply shp c o) = conn_delayedby c
   | KSyn _ _ _ _ _ _ => True
   end.
 Proof.
-  destruct o as [v|v|ds dt dl b ip]; [| |exact I]; cbn [Conn.conn_apply].
-  - pose proof (syn_setter_frame cast zeroA (conn_synapse c) (SDt RN v)) as (H1 & H2 & H3). cbn [Batch.s_apply] in *.
-    unfold Conn.conn_batch, Conn.conn_delayedby, Conn.conn_set_dt, Conn.conn_synapse in *. cbn [k_syn k_delayed].
-    split; [exact H2|]. rewrite H1. reflexivity.
-  - pose proof (syn_setter_frame cast zeroA (conn_synapse c) (SBatch RN v)) as (H1 & H2 & H3). cbn [Batch.s_apply] in *.
-    unfold Conn.conn_dt, Conn.conn_delayedby, Conn.conn_set_batch, Conn.conn_synapse in *. cbn [k_syn k_delayed].
-    split; [exact H1|]. rewrite H2. reflexivity.
+  assert (F : forall o', let c' := mkConn RN (k_delayed RN c) (s_apply (conn_synapse c) o') (k_stray RN c) in
+            match o' with
+            | SDt _ _ => conn_batch c' = conn_batch c /\ conn_delayedby c' = conn_delayedby c
+            | SBatch _ _ => conn_dt c' = conn_dt c /\ conn_delayedby c' = conn_delayedby c
+            | SDelay _ _ => conn_dt c' = conn_dt c /\ conn_batch c' = conn_batch c
+            | SInplace _ _ => conn_dt c' = conn_dt c /\ conn_batch c' = conn_batch c /\ conn_delayedby c' = conn_delayedby c
+            end).
+  { intros o'. pose proof (syn_setter_frame cast zeroA (conn_synapse c) o') as H. cbv zeta.
+    unfold Conn.conn_dt, Conn.conn_batch, Conn.conn_delayedby, Conn.conn_synapse in *. cbn [k_syn k_delayed].
+    destruct o' as [v|v|v|x]; destruct H as (H1 & H2 & H3); rewrite ?H1, ?H2, ?H3; auto. }
+  destruct o as [v|v|o'|ds dt dl b ip]; [exact (F (SDt RN v))|exact (F (SBatch RN v))| |exact I].
+  cbn [Conn.conn_apply]. pose proof (F o') as H. destruct o'; exact H.
 Qed.
 
 (* ------------------------------------------------------------------ setter paths reach the constructor's state *)
@@ -83,7 +97,7 @@ Lemma conn_apply_ok ds shp kd (c : conn) (o : conn_op) : conn_ok ds shp kd c ->
   exists ds', conn_ok ds' shp kd (conn_apply shp c o) /\ conn_cfg ds' (conn_apply shp c o) = conn_expect (conn_cfg ds c) o /\
     (is_syn_op RN o = false -> ds' = ds).
 Proof.
-  intros (H1 & H2 & Hok). destruct o as [v|v|ds' dt' dl' b' ip']; cbn [Conn.conn_apply Conn.conn_expect conn_cfg is_syn_op].
+  intros (H1 & H2 & Hok). destruct o as [v|v|o'|ds' dt' dl' b' ip']; cbn [Conn.conn_apply Conn.conn_expect conn_cfg is_syn_op].
   - exists ds. destruct (s_apply_ok cast promote D_eqb zeroA default_d ds shp _ (SDt RN v) Hok) as [K1 K2].
     cbn [Batch.s_apply] in K1, K2. split; [split; [exact H1|split; [exact H2|exact K1]]|]. split; [|auto].
     unfold conn_cfg, Conn.conn_set_dt, Conn.conn_synapse. cbn [k_syn]. unfold s_cfg in K2. cbn [Batch.s_expect] in K2.
@@ -92,6 +106,9 @@ Proof.
     cbn [Batch.s_apply] in K1, K2. split; [split; [exact H1|split; [exact H2|exact K1]]|]. split; [|auto].
     unfold conn_cfg, Conn.conn_set_batch, Conn.conn_synapse. cbn [k_syn]. unfold s_cfg in K2. cbn [Batch.s_expect] in K2.
     destruct (v <=? 0)%Z; injection K2 as E1 E2 E3 E4; rewrite E1, E2, E3, E4; reflexivity.
+  - exists ds. destruct (s_apply_ok cast promote D_eqb zeroA default_d ds shp _ o' Hok) as [K1 K2].
+    split; [split; [exact H1|split; [exact H2|exact K1]]|]. split; [|auto].
+    unfold conn_cfg, Conn.conn_synapse. cbn [k_syn]. unfold s_cfg in K2. rewrite <- K2. reflexivity.
   - destruct (Z.leb_spec b' 0) as [Hb|Hb].
     { exists ds. unfold Batch.s_ctor. destruct (Z.leb_spec b' 0); [|lia]. split; [split; auto|]. split; [reflexivity|discriminate]. }
     destruct (gtb RN dt' (zero RN)) eqn:G1; cbn [negb].
@@ -156,7 +173,7 @@ Qed.
 
 (* without replacements the class of the synapse stays: the connection is the one ITS OWN constructor builds *)
 Theorem conn_setters_clear_eq_own_ctor ds shp dt (delay : option (T RN)) b ip c0 (ops : list conn_op) :
-  conn_ctor ds shp dt delay b ip = Some c0 -> forallb (fun o => negb (is_syn_op RN o)) ops = true ->
+  conn_ctor ds shp dt delay b ip = Some c0 -> forallb (dt_batch_op RN) ops = true ->
   let c := fold_left (conn_apply shp) ops c0 in
   exists cf, conn_ctor ds shp (conn_dt c) delay (conn_batch c) ip = Some cf /\ conn_clear c = conn_clear cf.
 Proof.
@@ -171,16 +188,21 @@ Proof.
   cbv zeta. set (c := fold_left (conn_apply shp) ops (conn_init kd s0)).
   repeat match goal with |- context [fold_left (conn_apply shp) ops ?x] => change (fold_left (conn_apply shp) ops x) with c end.
   (* delay and inplace are not touched by dt / batchsz assignments *)
-  assert (Hkeep : forall ops' (c1 : conn), forallb (fun o => negb (is_syn_op RN o)) ops' = true ->
+  assert (Hns' : forallb (fun o => negb (is_syn_op RN o)) ops = true).
+  { clear -Hns. induction ops as [|o ops' IH]; [reflexivity|]. cbn [forallb] in *. apply andb_true_iff in Hns as [H1 H2].
+    rewrite (IH H2), andb_true_r. destruct o as [| |[| | |]|]; try discriminate; reflexivity. }
+  assert (Hkeep : forall ops' (c1 : conn), forallb (dt_batch_op RN) ops' = true ->
             s_delay RN (k_syn RN (fold_left (conn_apply shp) ops' c1)) = s_delay RN (k_syn RN c1) /\
             s_inplace RN (k_syn RN (fold_left (conn_apply shp) ops' c1)) = s_inplace RN (k_syn RN c1)).
   { induction ops' as [|o ops' IH]; intros c1 Hf; cbn [fold_left forallb] in *; [auto|].
     apply andb_true_iff in Hf as [Hf1 Hf2]. destruct (IH (conn_apply shp c1 o) Hf2) as [I1 I2]. rewrite I1, I2.
-    destruct o as [v|v|? ? ? ? ?]; [| |discriminate]; cbn [Conn.conn_apply].
+    destruct o as [v|v|[v|v|v|x]|? ? ? ? ?]; try discriminate; cbn [Conn.conn_apply].
+    - pose proof (syn_setter_frame cast zeroA (k_syn RN c1) (SDt RN v)) as (H1 & H2 & H3). cbn [Batch.s_apply] in *. auto.
+    - pose proof (syn_setter_frame cast zeroA (k_syn RN c1) (SBatch RN v)) as (H1 & H2 & H3). cbn [Batch.s_apply] in *. auto.
     - pose proof (syn_setter_frame cast zeroA (k_syn RN c1) (SDt RN v)) as (H1 & H2 & H3). cbn [Batch.s_apply] in *. auto.
     - pose proof (syn_setter_frame cast zeroA (k_syn RN c1) (SBatch RN v)) as (H1 & H2 & H3). cbn [Batch.s_apply] in *. auto. }
   destruct (Hkeep ops (conn_init kd s0) Hns) as [Kd Ki]. fold c in Kd, Ki. cbn [Conn.conn_init k_syn] in Kd, Ki.
-  destruct (conn_run_ok shp kd ops ds _ Hk0) as (ds' & (K1 & K2 & K3) & _ & Hds). fold c in K1, K2, K3. rewrite (Hds Hns) in K3.
+  destruct (conn_run_ok shp kd ops ds _ Hk0) as (ds' & (K1 & K2 & K3) & _ & Hds). fold c in K1, K2, K3. rewrite (Hds Hns') in K3.
   pose proof K3 as (nb & Hb' & Hp' & G1 & G2 & _).
   unfold s_cfg in Hcfg0. injection Hcfg0 as C1 C2 C3 C4. rewrite C2 in Kd. rewrite C4 in Ki.
   unfold Conn.conn_ctor, Conn.conn_dt, Conn.conn_batch, Conn.conn_synapse. fold dl.
